@@ -287,7 +287,7 @@ for _n, _nz, _name in ((4, 0, "n4"), (5, 0, "n5"), (7, 0, "n7"), (13, 11, "z11_n
 # ---------------------------------------------------------------- deflate: KD9 window slide
 h("kd9_fill_window_slide_keeps_deferred_match", D + "/kd9_window.rs", "deflate::verif_kani::kd9_window", ["C01", "C06"], kernel="KD9", expect_s=120, timeout=1800, weight=2, mem_gb=16,
   functions=["deflate::fill_window (slide branch, no input)"],
-  bounds="w_size 512 (window 1024 symbolic bytes), any strstart >= w_size + max_dist, any lookahead < MIN_LOOKAHEAD, any block_start/insert, any deferred match "
+  bounds="w_size 512 (window 1024 symbolic bytes), any strstart >= w_size + max_dist, any lookahead < MIN_LOOKAHEAD, any block_start, any insert <= w_size (what level 0 can leave behind for deflateParams), any deferred match "
          "(match_start, prev_length <= 258) satisfying the loop-head invariant of deflate_slow at one symbolic offset (the invariant is pointwise)",
   assumptions=["slide_hash -> no-op (decided by kd9_slide_hash_chain)", "avail_in == 0: fill_window returns after the slide"])
 h("kd9_longest_match_any_chain_length", D + "/kd9_window.rs", "deflate::verif_kani::kd9_window", ["C06", "C16"], kernel="KD9", expect_s=60, timeout=1200, weight=2, mem_gb=16,
@@ -361,6 +361,10 @@ h("kd7_finish_after_prime_on_a_finished_stream", D + "/kd7_machine.rs", "deflate
   functions=["deflate::prime", "deflate::deflate (status Finish)", "flush_pending", "BitWriter::flush_bits"],
   bounds="typed state of a finished stream (raw, or zlib/gzip with the trailer written), empty pending buffer and bit register; deflatePrime with any bits in 0..=32 and any value, then deflate(Z_FINISH) with 0..=6 bytes of room",
   assumptions=["algorithm::run stubbed (not reached: nothing to compress on a finished stream)"])
+h("kd7_flush_that_fills_the_buffer_is_repeated", D + "/kd7_machine.rs", "deflate::verif_kani::kd7_machine", ["C16", "C15", "C11", "C06"], kernel="KD7", expect_s=120, timeout=1200, weight=2, mem_gb=16,
+  functions=["deflate::deflate (BlockDone arm: marker, flush_pending, last_flush bookkeeping; duplicate-flush test at entry)", "flush_pending", "zng_tr_stored_block"],
+  bounds="raw stream, Sync or Full flush with 3 input bytes, 2..=8 bytes of room (the marker is 5), then the same flush again with 12 bytes of room and no input",
+  assumptions=["algorithm::run -> contract stub (consumes the input, completes the block without output of its own)"])
 h("kd7_zlib_starved_finish", D + "/kd7_machine.rs", "deflate::verif_kani::kd7_machine", ["C06", "C11", "C05", "C15"],
   kernel="KD7", expect_s=330, timeout=1800, weight=3, mem_gb=24,
   functions=["deflate::deflate", "flush_pending"],
@@ -534,7 +538,7 @@ h("kc9_adler_len_4_5", AD, ADP, ["C09"], kernel="KC9", tier="thorough", expect_s
 # lengths 8 and 16 (each on its own: > 1 h) and 15/16/17 together (2400 s) did not terminate: not registered, not claimed
 h("kc9_adler_tail_reduces_any_sum", AD, ADP, ["C09"], kernel="KC9", expect_s=60, timeout=900,
   functions=["adler32::generic::adler32_len_16 (final reduction)"], bounds="any low sum up to NMAX * 255 + BASE, any high sum, empty tail")
-h("kc9_adler_piecewise_fold_copy", AD, ADP, ["C09", "C08"], kernel="KC9", tier="thorough", expect_s=700, timeout=2400, weight=2,
+h("kc9_adler_piecewise_fold_copy", AD, ADP, ["C09", "C08"], kernel="KC9", tier="thorough", expect_s=700, timeout=2400, weight=2, mem_gb=24, rss_gb=14,
   functions=["adler32::adler32", "adler32::adler32_fold_copy"], bounds="5 symbolic bytes cut at any point, every valid start; result stays a valid Adler-32 value")
 
 # ---------------------------------------------------------------- Engine B (MIR -> SMT-LIB) queries
@@ -545,8 +549,8 @@ ENGINE_B.append({"name": "small_integer_kernels", "props": ["C06", "C08"]})
 # ---------------------------------------------------------------- copy kernels (C14)
 h("kd10c_pending_clone_to", "zlib-rs/src/deflate/pending/verif_kani.rs", "deflate::pending::verif_kani", ["C14"], kernel="KD10c", expect_s=20, timeout=600,
   functions=["Pending::clone_to", "Pending::{advance,pending,remaining,capacity}"], bounds="16-byte pending buffer, every (written, drained) position, symbolic contents")
-h("kd10c_symbuf_clone_to", "zlib-rs/src/deflate/sym_buf/verif_kani.rs", "deflate::sym_buf::verif_kani", ["C14"], kernel="KD10c", expect_s=20, timeout=600,
-  functions=["SymBuf::clone_to", "SymBuf::{push_lit,push_dist,iter}"], bounds="lit_bufsize 4, 0..=3 symbolic symbols")
+h("kd10c_symbuf_clone_to", "zlib-rs/src/deflate/sym_buf/verif_kani.rs", "deflate::sym_buf::verif_kani", ["C14", "C10"], kernel="KD10c", expect_s=20, timeout=600,
+  functions=["SymBuf::clone_to", "SymBuf::{push_lit,push_dist,iter}"], bounds="lit_bufsize 4, 0..=3 symbolic symbols, destination memory pre-filled with a non-zero pattern; one more literal pushed through original and copy")
 h("ki8c_window_clone_to", "zlib-rs/src/inflate/window/verif_kani.rs", "inflate::window::verif_kani", ["C14"], kernel="KI8c", expect_s=20, timeout=600,
   functions=["inflate::Window::clone_to", "Window::extend"], bounds="W = 8, any history from one extend of <= 12 bytes")
 
@@ -617,7 +621,7 @@ for _r, _a in ((0, 1), (1, 1), (1, 40), (2, 1), (3, 40)):
       bounds="gzip header with a name that leaves %d byte(s) of room in the 32-byte pending buffer when the Hcrc state is reached, any CRC of the earlier header bytes, "
              "first call with %d byte(s) of output space, second call with ample space" % (_r, _a),
       assumptions=RUNSTUB + ["crc32 -> order-sensitive byte-wise fold model", "CStr::from_ptr -> explicit-loop model"])
-h("kd7_starved_flush_is_completed_by_the_next_call", D + "/kd7_machine.rs", "deflate::verif_kani::kd7_machine", ["C11", "C06"], kernel="KD7", expect_s=120, timeout=1200, weight=2, mem_gb=16,
+h("kd7_starved_flush_is_completed_by_the_next_call", D + "/kd7_machine.rs", "deflate::verif_kani::kd7_machine", ["C11", "C06", "C15"], kernel="KD7", expect_s=120, timeout=1200, weight=2, mem_gb=16,
   functions=["deflate::deflate (last_flush / duplicate-flush logic, NeedMore with avail_out == 0, marker emission)"],
   bounds="raw stream in status Busy, any previous flush value incl. -1/-2, any flush but NoFlush, 3 input bytes; call 1 with one byte of space (the compress function runs out of space), call 2 with 15 bytes and no input",
   assumptions=["algorithm::run -> contract stub: takes all input; with one byte of space fills it, leaves data buffered, NeedMore; otherwise completes per flush"])
@@ -683,7 +687,7 @@ QUICK = {
     "C02": ["ki1_bitreader_refill_model", "ki2_copy_match_twin_small", "ki2_extend_from_window_twin", "ki3_window_extend_ring",
             "ki5b_extra", "ki5b_name_entry_length", "ki5b_comment_entry_length", "ki5b_name", "ki5c_stored", "ki5d_len_step", "ki6_fast_loop_room", "ki7_inflate_copyblock",
             "kb1_back_lit1_d16", "ki5c_lenlens_order"],
-    "C03": ["ki5c_codelens_16_exact", "ki5c_codelens_17_exact", "ki5c_codelens_18_exact", "ki5c_codelens_18_over", "ki5d_match_guard_dispatch", "ki5d_match_guard_friends", "ki5a_head_w1_n2", "ki5a_head_w3_n2", "ki5a_head_w2_n2", "ki5a_dictid_n4", "ki5c_typedo_b3_i0", "ki5c_typedo_b7_i0", "ki5c_stored", "ki5c_table",
+    "C03": ["ki5b_fixed_part", "ki5c_codelens_16_exact", "ki5c_codelens_17_exact", "ki5c_codelens_18_exact", "ki5c_codelens_18_over", "ki5d_match_guard_dispatch", "ki5d_match_guard_friends", "ki5a_head_w1_n2", "ki5a_head_w3_n2", "ki5a_head_w2_n2", "ki5a_dictid_n4", "ki5c_typedo_b3_i0", "ki5c_typedo_b7_i0", "ki5c_stored", "ki5c_table",
             "ki5c_lenlens_order", "ki5d_len_step", "ki5d_dist_step_friends", "ki5d_fixed_tables_are_rfc", "ki5e_check_zlib",
             "ki5e_length_gzip", "ki5b_hcrc"],
     "C04": ["ki5d_dist_long_code_dispatch", "ki1_bitreader_split", "ki5c_copyblock_resume", "ki5c_stored_trees", "ki5d_match_guard_dispatch", "ki5c_codelens_17_suspend", "ki5c_lenlens_order", "ki5b_extra", "ki5d_dist_step_friends",
@@ -698,15 +702,15 @@ QUICK = {
             "ki7_inflate_copyblock", "kc9_adler_len_0_1_2_3"],
     "C09": ["kc9_adler_tail_reduces_any_sum", "kc9_crc_tables", "kc9_crc_braid_table", "kc9_crc_naive_step", "kc9_crc_braid_short",
             "kc9_crc_combine_len0_1_2", "kc9_multmodp_identity", "kc9_adler_len_0_1_2_3"],
-    "C10": ["ki2_copy_match_twin_small", "ki2_extend_from_window_twin", "ki3_window_extend_ring", "kd10_reset_equals_fresh",
+    "C10": ["kd10c_symbuf_clone_to", "ki2_copy_match_twin_small", "ki2_extend_from_window_twin", "ki3_window_extend_ring", "kd10_reset_equals_fresh",
             "ki8_reset_equals_fresh"],
     "C11": ["kd3_tail_slow", "kd3_tail_fast", "kd3_tail_huff", "kd7_starved_flush_is_completed_by_the_next_call", "kd7_zlib_wrapper", "kd8_quick_sync_n3", "kd1_emitters_one_step"],
     "C13": ["ki5a_head_w1_n2", "ki5a_head_w5_n2", "ki5a_dictid_n3", "ki5a_dictid_n4", "ki5a_dictid_n4_have", "ki5a_set_dictionary", "ki3_get_dictionary_order", "kd7_zlib_wrapper", "kd10_set_dictionary_protocol"],
     "C14": ["ki8_copy_refuses_a_borrowed_window", "ki8_reset_forgets_header_window_bits", "kd10_reset_equals_fresh", "ki8_reset_equals_fresh", "ka2_deflate_copy_alloc_failure", "kd10c_pending_clone_to",
             "kd10c_symbuf_clone_to", "ki8c_window_clone_to", "kd7_gzip_start_stale_gzindex"],
-    "C15": ["ki7_inflate_primed_32_then_fast", "ki7_inflate_copyblock", "ki7_inflate_terminal", "ki5c_copyblock_resume", "ki1_bitreader_refill_model", "ki8_sync",
+    "C15": ["kd7_starved_flush_is_completed_by_the_next_call", "kd7_flush_that_fills_the_buffer_is_repeated", "ki7_inflate_primed_32_then_fast", "ki7_inflate_copyblock", "ki7_inflate_terminal", "ki5c_copyblock_resume", "ki1_bitreader_refill_model", "ki8_sync",
             "ki8_sync_then_inflate", "kd7_zlib_wrapper"],
-    "C16": ["kd7_finish_after_prime_on_a_finished_stream", "ki8_small_entry_points", "ki8_sync", "ki8_reset_equals_fresh", "ki5a_set_dictionary", "kd10_prime", "kd10_params_tune",
+    "C16": ["kd7_flush_that_fills_the_buffer_is_repeated", "kd7_finish_after_prime_on_a_finished_stream", "ki8_small_entry_points", "ki8_sync", "ki8_reset_equals_fresh", "ki5a_set_dictionary", "kd10_prime", "kd10_params_tune",
             "kd10_set_header", "kd10_set_dictionary_protocol", "ki7_inflate_terminal", "ki5e_terminal_modes"],
     "C18": ["ka3_default_allocator_fallback_is_a_matched_pair", "ka1_alloc_shim", "ka1_alloc_overflow_and_null", "ka2_deflate_copy_alloc_failure", "ka2_deflate_end_releases_once",
             "ka2_inflate_end_releases_once"],
